@@ -72,7 +72,7 @@ def design(ctx, out):
     try:
         keys, ids = ["k1", "k2"], ctx.pick(["a"], ["a", "b"])
         r = ctx.tlc("design", MODS[:1], mc("design", "Expire", keys, ids, ["h1"], ["c1"], [1, 3]),
-                    "SPECIFICATION Spec\n" + consts(MaxNow=ctx.pick(5, 6)) + "VIEW View\nINVARIANT " + INVS + "\nPROPERTY SweepAppendsDels\n",
+                    "SPECIFICATION Spec\n" + consts(MaxNow=ctx.pick(4, 6)) + "VIEW View\nINVARIANT " + INVS + "\nPROPERTY SweepAppendsDels\n",
                     workers=ctx.pick(4, 6), timeout=1500, extra=["-coverage", "1"])
         if not r["ok"]:
             raise common.Infra("the intended Expire design violates %s (specification error): %s" % (r["violated"], r["out"]))
@@ -116,35 +116,56 @@ def read_programs(path):
 
 
 def generate(ctx):
-    """Breadth-first transition cover (objects; hooks and channels) and random programs."""
-    covers = []
+    """Breadth-first transition covers: two collections with one object each (incl. RENAME); one collection with two
+    objects (four commands); hooks and channels.  The three TLC runs go side by side."""
+    cfgs = [("gen_obj", ["k1", "k2"], ctx.pick(["a"], ["a", "b"]), [], [], ctx.pick([1, 20], [1, 3, 20]), 3, ctx.pick(4, 5)),
+            ("gen_two", ["k1"], ["a", "b"], [], [], [1, 20], 4, ctx.pick(3, 4)),
+            ("gen_hook", ["k1"], ["a"], ["h1"], ["c1"], [1, 3, 20], ctx.pick(2, 3), 5)]
+    covers = [None] * len(cfgs)
     stats = {"states": 0, "transitions": 0}
-    cfgs = [("gen_obj", ["k1", "k2"], ctx.pick(["a"], ["a", "b"]), [], [], 3, 5),
-            ("gen_hook", ["k1"], ["a"], ["h1"], ["c1"], ctx.pick(2, 3), 5)]
-    for name, keys, ids, hooks, chans, maxops, maxnow in cfgs:
-        r = ctx.tlc(name, MODS[:2], mc(name, "ExpireGen", keys, ids, hooks, chans, [1, 3, 20]),
-                    "SPECIFICATION GenSpec\n" + consts(MaxNow=maxnow, MaxOps=maxops, MarginP=3, MarginA=8) +
-                    "VIEW GenView\nINVARIANT NeverEarly Bounded NoStaleTimer ExpiryIsLoggedDel\nPROPERTY Emit\n",
-                    workers=1, timeout=2400)
-        if not r["ok"]:
-            raise common.Infra("ExpireGen violates %s: %s" % (r["violated"], r["out"]))
-        dest = os.path.join(r["dir"], "programs.ndjson")
-        n = ctx.extract_tr(r["out"], dest)
-        os.remove(r["out"])
-        progs = read_programs(dest)
-        ctx.log("TLC %s: %d distinct states, %d programs (%d stale-timer probes, %d expiring sweeps) in %.0fs" % (
-            name, r["distinct"], n, sum(p["tag"] == "stale" for p in progs), sum(p["tag"] == "expiry" for p in progs), r["wall_s"]))
-        if not n or not any(p["tag"] == "stale" for p in progs):
-            raise common.Infra("generator %s emitted no stale-timer probe" % name)
+    errors = []
+
+    def one(n):
+        try:
+            name, keys, ids, hooks, chans, ttls, maxops, maxnow = cfgs[n]
+            r = ctx.tlc(name, MODS[:2], mc(name, "ExpireGen", keys, ids, hooks, chans, ttls),
+                        "SPECIFICATION GenSpec\n" + consts(MaxNow=maxnow, MaxOps=maxops, MarginP=3, MarginA=8) +
+                        "VIEW GenView\nINVARIANT NeverEarly Bounded NoStaleTimer ExpiryIsLoggedDel\nPROPERTY Emit\n",
+                        workers=1, timeout=2400)
+            if not r["ok"]:
+                raise common.Infra("ExpireGen violates %s: %s" % (r["violated"], r["out"]))
+            dest = os.path.join(r["dir"], "programs.ndjson")
+            n_emitted = ctx.extract_tr(r["out"], dest)
+            os.remove(r["out"])
+            progs = read_programs(dest)
+            ctx.log("TLC %s: %d distinct states, %d programs (%d stale-timer probes, %d expiring sweeps) in %.0fs" % (
+                name, r["distinct"], n_emitted, sum(p["tag"] == "stale" for p in progs), sum(p["tag"] == "expiry" for p in progs), r["wall_s"]))
+            if not n_emitted or not any(p["tag"] == "stale" for p in progs):
+                raise common.Infra("generator %s emitted no stale-timer probe" % name)
+            covers[n] = (progs, r)
+        except BaseException as e:
+            errors.append(e)
+
+    ts = [threading.Thread(target=one, args=(n,)) for n in range(len(cfgs))]
+    for t in ts:
+        t.start()
+    for t in ts:
+        t.join()
+    if errors:
+        raise errors[0]
+    for progs, r in covers:
         stats["states"] += r["distinct"]
         stats["transitions"] += r["generated"]
-        covers.append(progs)
-    return covers, stats
+    return [c[0] for c in covers], stats
 
 
-def simulate(ctx, name, num, maxops, maxnow):
-    r = ctx.tlc(name, MODS[:3], mc(name, "ExpireSim", ["k1", "k2"], ["a", "b"], ["h1"], ["c1"], [0, 1, 2, 3, 5, 8, 12, 15, 25, 40]),
-                "SPECIFICATION SimSpec\n" + consts(MaxNow=maxnow, MaxOps=maxops, MarginP=3, MarginA=8, TickPct=55) +
+SIM_TTLS = [0, 1, 2, 3, 5, 8, 12, 15, 25, 40]
+KEYS8 = ["k%d" % n for n in range(1, 9)]
+
+
+def simulate(ctx, name, num, maxops, maxnow, keys=("k1", "k2"), ids=("a", "b"), ttls=SIM_TTLS, tickpct=55):
+    r = ctx.tlc(name, MODS[:3], mc(name, "ExpireSim", list(keys), list(ids), ["h1"], ["c1"], ttls),
+                "SPECIFICATION SimSpec\n" + consts(MaxNow=maxnow, MaxOps=maxops, MarginP=3, MarginA=8, TickPct=tickpct) +
                 "INVARIANT NeverEarly Bounded NoStaleTimer ExpiryIsLoggedDel TTLReports\n",
                 workers=1, simulate=num, depth=400, timeout=900)
     if not r["ok"]:
@@ -224,13 +245,16 @@ def split_trace(trace):
     return by
 
 
-def judge(ctx, by_sc, label, chunks=3):
-    """TLC (ExpireTrace) on the recorded scenarios. Returns (rejections, summed counters)."""
-    scs = sorted(by_sc)
-    if not scs:
+def judge(ctx, by_sc, label, chunks=3, wide=()):
+    """TLC (ExpireTrace) on the recorded scenarios. Returns (rejections, summed counters).
+    `wide`: scenarios over the eight-key universe (judged apart: the constants of a TLC run are its key set)."""
+    scs = sorted(sc for sc in by_sc if sc not in wide)
+    wides = sorted(sc for sc in by_sc if sc in wide)
+    if not scs and not wides:
         raise common.Infra("nothing to judge (%s)" % label)
-    chunks = max(1, min(chunks, len(scs)))
-    parts = [scs[i::chunks] for i in range(chunks)]
+    chunks = max(1, min(chunks, len(scs))) if scs else 0
+    parts = [scs[i::chunks] for i in range(chunks)] + ([wides] if wides else [])
+    chunks = len(parts)
     results = [None] * chunks
     errors = []
 
@@ -243,7 +267,8 @@ def judge(ctx, by_sc, label, chunks=3):
                 for sc in parts[i]:
                     f.writelines(by_sc[sc])
             name = "trace_%s_%d" % (label, i)
-            r = ctx.tlc(name, [MODS[0], MODS[3]], mc(name, "ExpireTrace", ["k1", "k2"], ["a", "b", "c"], ["h1"], ["c1"], []),
+            keys = KEYS8 if parts[i] is wides else KEYS8[:2]
+            r = ctx.tlc(name, [MODS[0], MODS[3]], mc(name, "ExpireTrace", keys, ["a", "b"], ["h1"], ["c1"], []),
                         "SPECIFICATION TraceSpec\n" + consts(P=P_US, Slack=SLACK_US, Sec=1000000, MaxNow=0, MaxOps=0, Lag=LAG_US, Fresh=FRESH_US) +
                         "INVARIANT ModelOK\nPOSTCONDITION Consumed\n", workers=1, timeout=1800, files=[path])
             if not r["ok"]:
@@ -298,7 +323,8 @@ def run_and_judge(ctx, progs, label, report=True, retries=2):
     trace, runs = execute(ctx, progs, label)
     t1 = time.time()
     by_sc = split_trace(trace)
-    rejs, cnt = judge(ctx, by_sc, label)
+    wide = {p["sc"] for p in progs if any(s.get(x) in KEYS8[2:] for s in p["h"] for x in ("k", "k2"))}
+    rejs, cnt = judge(ctx, by_sc, label, wide=wide)
     ctx.log("%s: %d programs executed in %.0fs (%d trace lines), judged by TLC in %.0fs" % (
         label, len(progs), t1 - t0, sum(len(v) for v in by_sc.values()), time.time() - t1))
     verdicts = []          # (sc, kind, text, rej)
@@ -319,7 +345,7 @@ def run_and_judge(ctx, progs, label, report=True, retries=2):
         again = [dict(by_prog[sc]) for sc in sorted(set(redo))]
         for attempt in range(retries):
             t2, runs2 = execute(ctx, again, "%s_redo%d" % (label, attempt), par=2)
-            rej2, cnt2 = judge(ctx, split_trace(t2), "%s_redo%d" % (label, attempt), chunks=1)
+            rej2, cnt2 = judge(ctx, split_trace(t2), "%s_redo%d" % (label, attempt), chunks=1, wide=wide)
             still = []
             for rj in rej2:
                 sc = rj["sc"]
@@ -472,20 +498,26 @@ def run(ctx):
         return run_replay(ctx)
     rng = random.Random(ctx.seed)
     dres = {}
-    covers, gstats = generate(ctx)
     dthread = threading.Thread(target=design, args=(ctx, dres))
     vthread = threading.Thread(target=variants, args=(ctx, dres))
     dthread.start()
     vthread.start()
     try:
-        cover_obj, nshapes_obj = pick_cover(covers[0], ctx.pick(110, 900), rng)
-        cover_hook, nshapes_hook = pick_cover(covers[1], ctx.pick(30, 300), rng)
-        sims, rsim = simulate(ctx, "sim", ctx.pick(90, 500), ctx.pick(10, 14), ctx.pick(24, 30))
-        progs = dress(cover_obj + cover_hook, rng, follower_pct=20, restart_pct=ctx.pick(50, 100))
+        covers, gstats = generate(ctx)
+        cover_obj, nshapes_obj = pick_cover(covers[0], ctx.pick(80, 800), rng)
+        cover_two, nshapes_two = pick_cover(covers[1], ctx.pick(60, 800), rng)
+        cover_hook, nshapes_hook = pick_cover(covers[2], ctx.pick(30, 300), rng)
+        sims, rsim = simulate(ctx, "sim", ctx.pick(100, 500), ctx.pick(10, 14), ctx.pick(24, 30))
+        # bursts: many collections whose objects expire in the same sweep (one TTL, hardly any time between the commands)
+        burst, _ = simulate(ctx, "burst", ctx.pick(16, 80), 14, 6, keys=KEYS8, ids=("a",), ttls=[5], tickpct=8)
+        cover = cover_obj + cover_two + cover_hook
+        progs = list(dress(cover, rng, follower_pct=20, restart_pct=ctx.pick(50, 100)))
         progs += dress(sims, rng, follower_pct=40, restart_pct=ctx.pick(60, 100), sc0=len(progs))
+        progs += dress(burst, rng, follower_pct=0, restart_pct=50, sc0=len(progs))
         rng.shuffle(progs)
-        ctx.log("programs: %d stale-timer / expiry programs of the cover (%d + %d shapes), %d random; %d with a follower" % (
-            len(cover_obj) + len(cover_hook), nshapes_obj, nshapes_hook, len(sims), sum(p["attach"] >= 0 for p in progs)))
+        nshapes = nshapes_obj + nshapes_two + nshapes_hook
+        ctx.log("programs: %d stale-timer / expiry programs of the cover (%d shapes), %d random, %d bursts; %d with a follower" % (
+            len(cover), nshapes, len(sims), len(burst), sum(p["attach"] >= 0 for p in progs)))
         res = run_and_judge(ctx, progs, "main")
         extra = []
         if not ctx.quick:
@@ -534,7 +566,8 @@ def run(ctx):
     if cnt["latefol"] == 0 and not ctx.violations:
         raise common.Infra("no follower lost an object before its own timer could fire: the log-borne DEL was never witnessed")
     # self-test of the binding on accepted runs
-    accepted = {sc: lines for sc, lines in res["by_sc"].items() if sc not in rejected}
+    wide = {p["sc"] for p in progs if any(s.get(x) in KEYS8[2:] for s in p["h"] for x in ("k", "k2"))}
+    accepted = {sc: lines for sc, lines in res["by_sc"].items() if sc not in rejected and sc not in wide}
     st = selftest(ctx, accepted, {p["sc"]: p for p in progs}, [p for p in progs if p["sc"] in accepted and p["tag"] == "stale"])
     d = dres["design"]
     lateness = sorted(r["stall_ms"] for r in runs.values())
@@ -549,7 +582,7 @@ def run(ctx):
         "broken_variants_refuted": dres["refuted"],
         "programs_run": len(runs),
         "programs_by_tag": {t: sum(1 for p in progs if p["tag"] == t) for t in ("stale", "expiry", "sim")},
-        "cover_shapes": nshapes_obj + nshapes_hook,
+        "cover_shapes": nshapes,
         "polls_issued": sum(r["polls"] for r in runs.values()),
         "trace_events_judged": {k: cnt[k] for k in ("writes", "reads", "ttls", "ttlsdl", "htt", "xdels", "xhooks", "freads", "ends",
                                                     "restarts", "followers", "dels", "notes", "latefol", "noop", "rej")},
